@@ -85,6 +85,41 @@ Definition release_step (h : Z) (d : dump) (o : obs) (d' : dump) : bool :=
   end.
 Definition mon_release : case -> option nat := mon_with (fun _ => true) release_step.
 
+(* --- release in the REAL block (suite fullapp: app.EndBlocker in the application's configured module order, holds placed and
+       released by the real dogfood module): a properly indexed record whose completion height is the height of the block
+       and whose hold count is 0 AT THE END of the block must be gone at the end of the block, its staker credited with exactly
+       ActualCompletedAmount and the three pending figures lowered by Amount; a due record that stays is the same record
+       re-queued for the next height; records that are not due, staking totals and staker lists do not change --- *)
+Definition release_app_step (h : Z) (d : dump) (o : obs) (d' : dump) : bool :=
+  match o_op o with
+  | EndBlock =>
+      let due := filter (fun kv => let '(rk, r) := kv in
+                           (ur_cn r =? h) && idx_points (d_pidx d) (pkey r) rk && String.eqb rk (rkey r)) (d_ur d) in
+      let rel := filter (fun kv => negb (has_key (d_ur d') (fst kv))) due in
+      let is_due k := existsb (fun x => String.eqb (fst x) k) due in
+      let ksa r := sa_key (ur_staker r) (ur_asset r) in
+      let koa r := oa_key (ur_op r) (ur_asset r) in
+      let kdg r := dg_key (ur_staker r) (ur_asset r) (ur_op r) in
+      forallb (fun kv => if holdc d' (fst kv) =? 0 then negb (has_key (d_ur d') (fst kv)) else true) due &&
+      forallb (fun kv => match sget (d_ur d') (fst kv) with
+                         | Some r' => ur_eqb r' (with_cn (snd kv) (h + 1)) | None => true end) due &&
+      forallb (fun kv => holdc d' (fst kv) =? 0) rel &&
+      store_eqb sa_eqb (d_sa d')
+        (map (fun kv => (fst kv, mkSA (sa_total (snd kv)) (sa_wd (snd kv) + sum_rel rel ksa (fst kv) ur_act)
+                                      (sa_pend (snd kv) - sum_rel rel ksa (fst kv) ur_amt))) (d_sa d)) &&
+      store_eqb oa_eqb (d_oa d')
+        (map (fun kv => (fst kv, mkOA (oa_amt (snd kv)) (oa_pend (snd kv) - sum_rel rel koa (fst kv) ur_amt)
+                                      (oa_tsh (snd kv)) (oa_osh (snd kv)))) (d_oa d)) &&
+      store_eqb dg_eqb (d_dg d')
+        (map (fun kv => (fst kv, mkDG (dg_sh (snd kv)) (dg_wait (snd kv) - sum_rel rel kdg (fst kv) ur_amt))) (d_dg d)) &&
+      store_eqb Z.eqb (d_tot d') (d_tot d) && store_eqb (list_eqb String.eqb) (d_sl d') (d_sl d) &&
+      forallb (fun kv => is_due (fst kv) ||
+                         match sget (d_ur d') (fst kv) with Some r' => ur_eqb r' (snd kv) | None => false end) (d_ur d) &&
+      forallb (fun kv => has_key (d_ur d) (fst kv)) (d_ur d')
+  | _ => true
+  end.
+Definition mon_release_app : case -> option nat := mon_with (fun _ => true) release_app_step.
+
 (* --- slashing applied while pending is recorded: when a native-restaking balance decrease is booked against the staker
        (the amount the implementation debits from the staker's TotalDepositAmount, reported by the harness as GNstM), exactly
        that much disappears from what the staker can still get: withdrawable balance, ActualCompletedAmount of the pending
